@@ -212,7 +212,9 @@ def main(argv=None):
     if hasattr(mod, "finalize"):
         try:
             fin = mod.finalize(args.tier, seed, agg, cases, results) or {}
-        except HarnessError as e:
+        except Exception as e:  # the runner runs as __main__: mc.runner.HarnessError raised by a check is another class object
+            if type(e).__name__ != "HarnessError":
+                raise
             print(f"HARNESS-ERROR property={pid} {e}")
             return 2
         for v in fin.get("viol", []):
